@@ -152,3 +152,11 @@ P['C15'] = dict(
           dict(name='disconnect_caps', tu=_caps, entry='h_caps_disconnect', engine='B', clock=True, reach=['kept-properties', 'dropped-properties'], samples=6)])
 P['C16']['jobs'] += [dict(name='request_validation', tu=_caps, entry='h_req_validation', engine='B', clock=True,
                           reach=['subscription-identifier', 'utf8-payload', 'user-property', 'response-topic', 'content-type', 'empty-topic', 'reason-string', 'unsubscribe-filter', 'accepted', 'rejected'], samples=10)]
+
+P['C11'] = dict(
+    level_text='Kernel: the real async_mutex (the connection lock) on the FIFO executor, differentially against a small reference model, under every sequence of lock requests (3-4 waiters with cancellation slots), unlock by the holder, per-waiter cancellation signals, cancel-all and single handler executions: never two holders, is_locked() equals the model after every step, every waiter answered exactly once - success in arrival order if the model grants, operation_aborted if cancelled while queued - never inside lock/unlock/cancel/emit. Whole client: simultaneous read failure, write failure and keep-alive timeout on one connection lead to exactly one connection attempt at a time (stub socket counts overlapping attempts), and a stale trigger does not connect again.',
+    level_note='Bounds: kernel 3 waiters x 8 steps (quick) / 4 x 10 (thorough); whole client: one loss with up to three simultaneous triggers. Single thread.',
+    assumptions=['single thread; FIFO executor'] + _pub_assume[:1],
+    jobs=[dict(name='mutex_model', tu='harness/k_mutex.cpp', entry='h_mutex', engine='B', clock=True, defs_quick={'VK_STEPS': 8, 'VK_WAITERS': 3}, defs_thorough={'VK_STEPS': 10, 'VK_WAITERS': 4},
+               reach=['unlock', 'waiter-cancelled', 'cancel-all', 'granted'], samples=12),
+          dict(name='single_flight', tu='harness/w_single.cpp', entry='h_single_flight', engine='B', clock=True, reach=['read-failed', 'write-failed', 'read-timeout', 'refused', 'cancelled-midway', 'reconnected-once'], samples=10)])
